@@ -20,10 +20,13 @@ import (
 	"github.com/LiskHQ/lisk-engine/pkg/db"
 	"github.com/LiskHQ/lisk-engine/pkg/db/diffdb"
 	"github.com/LiskHQ/lisk-engine/pkg/engine/config"
+	"github.com/LiskHQ/lisk-engine/pkg/framework"
+	"github.com/LiskHQ/lisk-engine/pkg/framework/blueprint"
 	"github.com/LiskHQ/lisk-engine/pkg/generator"
 	"github.com/LiskHQ/lisk-engine/pkg/labi"
 	"github.com/LiskHQ/lisk-engine/pkg/log"
 	"github.com/LiskHQ/lisk-engine/pkg/p2p"
+	"github.com/LiskHQ/lisk-engine/pkg/statemachine"
 	"github.com/LiskHQ/lisk-engine/pkg/txpool"
 
 	"verifharness/internal/exh"
@@ -634,6 +637,72 @@ func seedInfos(env *genEnv) {
 	env.gdb.Write(batch)
 }
 
+// ---------------------------------------------------------------------------------------- in-process ABI handler
+//
+// The generator executes a pooled transaction against the application through the in-process framework.ABIHandler
+// (the configuration without IPC): the transaction must be executed and selected, not crash the node.
+
+type abiRec struct {
+	K        string `json:"k"`
+	Selected int    `json:"selected"`
+	Err      string `json:"err,omitempty"`
+	Panic    string `json:"panic,omitempty"`
+	Fail     string `json:"fail,omitempty"`
+}
+
+type okCmd struct{}
+
+func (okCmd) ID() uint32   { return 0 }
+func (okCmd) Name() string { return "ok" }
+func (okCmd) Verify(ctx *statemachine.TransactionVerifyContext) statemachine.VerifyResult {
+	return statemachine.NewVerifyResultOK()
+}
+func (okCmd) Execute(ctx *statemachine.TransactionExecuteContext) error { return nil }
+
+type okMod struct{ blueprint.Module }
+
+func (m *okMod) Name() string                                        { return "m" }
+func (m *okMod) GetCommand(name string) (statemachine.Command, bool) { return okCmd{}, true }
+
+func runABI() (rec abiRec) {
+	rec = abiRec{K: "abi"}
+	lg, _ := log.NewSilentLogger()
+	sm := statemachine.NewExecuter()
+	sm.Init(lg)
+	m := &okMod{}
+	sm.AddModule(m)
+	stateDB, _ := db.NewInMemoryDB()
+	moduleDB, _ := db.NewInMemoryDB()
+	defer stateDB.Close()
+	defer moduleDB.Close()
+	h := framework.NewABIHandler(context.Background(), nil, lg, sm, nil, stateDB, moduleDB, []framework.Module{m})
+	header := &blockchain.BlockHeader{Version: 2, Height: 1, AggregateCommit: &blockchain.AggregateCommit{}}
+	r, err := h.InitStateMachine(&labi.InitStateMachineRequest{Header: header})
+	if err != nil {
+		rec.Fail = "InitStateMachine: " + err.Error()
+		return rec
+	}
+	tx := &blockchain.Transaction{Module: "m", Command: "ok", Nonce: 0, Fee: 100000, SenderPublicKey: senderKey(1), Params: []byte{1},
+		Signatures: []codec.Hex{make([]byte, 64)}}
+	tx.Init()
+	chain := blockchain.NewChain(&blockchain.ChainConfig{ChainID: []byte{0, 0, 0, 1}, MaxBlockCache: 10})
+	g := generator.NewGenerator(&generator.GeneratorParams{Chain: chain})
+	func() {
+		defer func() {
+			if p := recover(); p != nil {
+				rec.Panic = "generator ExecuteTransaction through framework.ABIHandler: " + firstLine(p)
+			}
+		}()
+		out, err := g.VerifC15SelectTransactionsWith(h, r.ContextID, &labi.Consensus{}, header, []*blockchain.Transaction{tx}, 10000)
+		if err != nil {
+			rec.Err = firstLine(err)
+			return
+		}
+		rec.Selected = len(out)
+	}()
+	return rec
+}
+
 // ---------------------------------------------------------------------------------------- acceptance
 
 type accRec struct {
@@ -909,6 +978,8 @@ func main() {
 					panic(err)
 				}
 				o.Put(runAcc(rec))
+			case "abi":
+				o.Put(runABI())
 			case "dbl":
 				var rec dblRec
 				if err := json.Unmarshal([]byte(line), &rec); err != nil {
@@ -924,6 +995,7 @@ func main() {
 	genSel(o, r, *nsel)
 	genGen(o, r, *ngen)
 	genAcc(o, r, *nacc)
+	o.Put(runABI())
 	if *ndbl > 0 {
 		o.Put(runDbl("busy"))
 		o.Put(runDbl("lower"))
